@@ -32,6 +32,8 @@ def run(ck, F):
                   "with canonical lexemes type-check against the real prelude with the six documented crates")
     ck.rule("R3a", "member separators: every struct member template that can be followed by another member ends with `,`")
     ck.rule("R5", "dependency lexicon: no crate that only zeep depends on is named in the prelude text")
+    ck.rule("R7", "self-alias guard: `pub type A = <path>::B;` is emitted only when the spelling A that is emitted differs from the last segment "
+                  "of the type it aliases (otherwise the alias collides with the definition of that type)")
     ck.rule("R6", "name injectivity under loops: definition templates depend on every enclosing loop element or sit in a module/impl that does")
     X = T.extractor(F)
     for fn, u in X.errors.items():
@@ -100,6 +102,7 @@ def run(ck, F):
         ck.ok("R5", "crate-roots", "helpers_content.rs", f"{len(roots)} path roots in the prelude, none of them a zeep-only crate")
     rule_spelling(ck, F, X)
     rule_injectivity(ck, F, X)
+    rule_self_alias(ck, F, X)
     rule_member_separators(ck, F, X)
     rule_skeletons(ck, F)
 
@@ -410,3 +413,57 @@ def rule_skeletons(ck, F):
 
 def _skel_key(t):
     return re.sub(r"\s+", " ", re.sub(r"[A-Za-z0-9_]{12,}", "{}", t)).strip()[:60]
+
+
+def rule_self_alias(ck, F, X):
+    CE = og.CallExpander(F)
+    n = 0
+
+    def strip(nf):
+        while isinstance(nf, tuple) and nf[0] == "call" and str(nf[1]).rsplit("::", 1)[-1] in ("as_str", "as_ref", "deref", "to_string", "clone") and len(nf[2]) == 1:
+            nf = nf[2][0]
+        while isinstance(nf, tuple) and (nf[0] == "payload" or (nf[0] == "call" and nf[1] in ("Some", "Ok") and len(nf[2]) == 1)):
+            nf = nf[2] if nf[0] == "payload" else nf[2][0]
+        return nf
+
+    def eqs(c, out):
+        if isinstance(c, tuple) and c[0] == "binop" and c[1] == "And":
+            eqs(c[2], out)
+            eqs(c[3], out)
+        elif isinstance(c, tuple) and c[0] == "binop" and c[1] == "Eq":
+            out.append((strip(c[2]), strip(c[3])))
+        elif isinstance(c, tuple) and c[0] == "islet":
+            pass
+        return out
+    for fn, evs in X.events.items():
+        for e in evs:
+            if e.kind != "emit" or not re.match(r"^\s*pub type \{\} = \{\};", e.skeleton()):
+                continue
+            n += 1
+            a = strip(CE.expand(e.holes()[0][0]))
+            b = CE.expand(e.holes()[1][0])
+            b_s = og.nf_str(strip(b))
+            good = False
+            seen = []
+            for c in e.ctx:
+                if c[0] != "alt":
+                    continue
+                cond, branch = CE.expand(c[1]), c[2]
+                while isinstance(cond, tuple) and cond[0] == "not":
+                    cond, branch = cond[1], not branch
+                if branch is not False:
+                    continue   # the emission must sit where the comparison came out false
+                for x, y in eqs(cond, []):
+                    seen.append((og.nf_str(x)[:60], og.nf_str(y)[:60]))
+                    for p, q in ((x, y), (y, x)):
+                        if p == a and b_s in og.nf_str(q):
+                            good = True
+            short = fn.rsplit("::", 1)[-1]
+            if good:
+                ck.ok("R7", f"{short}:alias-guard", e.site, "the alias is skipped when the emitted alias name equals the last segment of the aliased type", fn=short)
+            else:
+                ck.violation("R7", f"{short}:alias-guard", e.site,
+                             f"`pub type {{}} = {{}};` is emitted without first comparing the emitted alias name ({og.nf_str(a)[:70]}) with the name of the "
+                             f"aliased type (comparisons found: {seen}): an element named like its type in another case style yields "
+                             f"`pub type X = ..::X;` next to `struct X` (E0428)", fn=short)
+    ck.floor("R7", "type alias templates", n, 1)
